@@ -8,6 +8,8 @@ set -u
 ID="$1"; TARGET="$2"; SECS="$3"
 VERIF_DIR="${VERIF_DIR:-/verif}"
 export VERIF_DIR CARGO_NET_OFFLINE=true
+# leaks are not a property violation (the harness leaks its per-shard rayon pools on purpose)
+export ASAN_OPTIONS="${ASAN_OPTIONS:-detect_leaks=0}"
 F="$VERIF_DIR/fuzz"
 SEED="${VERIF_SEED:-0}"; [ "$SEED" = "0" ] && SEED=1
 if ! (cd "$F" && cargo +nightly fuzz build --fuzz-dir . "$TARGET" >"$F/build.log" 2>&1); then
@@ -22,7 +24,7 @@ rc=0
 stats="[]"
 for mode in empty seeded; do
   log="$RUN/$mode.log"
-  (cd "$F" && cargo +nightly fuzz run --fuzz-dir . "$TARGET" "$RUN/$mode" -- -seed="$SEED" -max_total_time="$half" -len_control=0 -max_len=4096 -timeout=20 -rss_limit_mb=4096 -print_final_stats=1 -artifact_prefix="$F/artifacts/$TARGET/" >"$log" 2>&1)
+  (cd "$F" && cargo +nightly fuzz run --fuzz-dir . "$TARGET" "$RUN/$mode" -- -seed="$SEED" -max_total_time="$half" -len_control=0 -max_len=4096 -timeout=20 -rss_limit_mb=4096 -print_final_stats=1 -detect_leaks=0 -artifact_prefix="$F/artifacts/$TARGET/" >"$log" 2>&1)
   frc=$?
   if grep -q "^VIOLATION" "$log"; then
     grep -A2 "^VIOLATION" "$log" | head -3
